@@ -106,11 +106,17 @@ func (e *Exec) callsiteChecks(st *State, fn *types.Func, recv *Val, args []Val, 
 		if recv != nil {
 			extra["arg_recv"] = *recv
 		}
+		extra["idx"] = Val{T: IntLit(-1), GT: types.Typ[types.Int]} // not inside a range loop
+		if n := len(e.idxStack); n > 0 {
+			if v, ok := st.vars[e.idxStack[n-1]]; ok {
+				extra["idx"] = v
+			}
+		}
 		env := e.loopEnv(st, x.Pos(), extra)
 		if c.Kind == "trackresult" {
 			continue // assigned after the call (postCallTracks)
 		}
-		if c.Kind == "track" {
+		if c.Kind == "track" || c.Kind == "collect" {
 			tracks = append(tracks, trackUpd{c, env})
 			continue
 		}
@@ -126,8 +132,36 @@ func (e *Exec) callsiteChecks(st *State, fn *types.Func, recv *Val, args []Val, 
 		e.inContract++
 		v := e.cev(st, t.c.Expr, t.env)
 		e.inContract--
+		if t.c.Kind == "collect" {
+			cur, ok := e.ghostSet(st, t.c.Name)
+			if ok && cur.T.Sort == ArraySort(v.T.Sort, SBool) {
+				st.ghosts["set:"+t.c.Name] = Val{T: Store(cur.T, v.T, True)}
+			} else {
+				e.fail(x.Pos(), "contract: collect %s: element sort %s does not match the declared element type", t.c.Name, v.T.Sort)
+			}
+			continue
+		}
 		st.ghosts["g:"+t.c.Name] = v
 	}
+}
+
+// ghostSet returns the current value of a monotone ghost set declared by a `collect` clause (its entry value
+// is an arbitrary set).
+func (e *Exec) ghostSet(st *State, name string) (Val, bool) {
+	if g, ok := st.ghosts["set:"+name]; ok {
+		return g, true
+	}
+	fc := e.frames[0].contract
+	if fc == nil {
+		return Val{}, false
+	}
+	for _, c := range fc.Sites {
+		if c.Kind == "collect" && c.Name == name {
+			t := e.resolveTypeStr(&cenv{vals: map[string]Val{}, pkgPath: fc.Pkg}, c.Region)
+			return Val{T: e.sc.Const("set0:"+name, ArraySort(e.sr.sortOf(t), SBool))}, true
+		}
+	}
+	return Val{}, false
 }
 
 type trackUpd struct {
